@@ -472,7 +472,7 @@ class ScenarioTimeout(KeyboardInterrupt):
     """Raised by the wall-clock guard of a scenario (a KeyboardInterrupt: no `except Exception` swallows it)."""
 
 
-SCENARIO_TIMEOUT_S = float(os.environ.get('VERIF_SCENARIO_TIMEOUT', '120'))
+SCENARIO_TIMEOUT_S = float(os.environ.get('VERIF_SCENARIO_TIMEOUT', '45'))
 
 
 def _worker_run(arg):
